@@ -17,7 +17,7 @@ THEOREMS = [
     "C15_unpack_compositional_optional",
     "C15_frame_partial", "C15_frame_creation_extends", "C15_frame_history",
     "C15_lookalike_refuted", "C15_subclass_refuted", "C15_frame_subclass_refuted",
-    "C15_fieldless_member_refuted", "C15_dialect_priority_refuted", "C15_union_order_observable",
+    "C15_fieldless_member_refuted", "C15_dialect_priority_refuted", "C15_union_order_observable", "C15_union_container_refuted",
 ]
 
 CASE_TYPE = "env * (bool * mode * option bool) * ty * val * res val"
@@ -281,14 +281,16 @@ def first_diff(sc, t, v, a, b):
     if a[0] != b[0] or a[0] == "err":
         return (t, v)
     if k == "union":
-        # descend through a container / dataclass member whose shape fits value and both outputs
-        dms = [q[1] for q in t[1] if q[0] == "data"]
-        for mt in t[1]:
-            # (an instance of a later dataclass member stays at the union: static-dispatch signature)
-            if mt[0] in ("list", "dict", "tuple") or (mt[0] == "data" and v[0] == "obj" and v[1] == mt[1] and dms[0] == mt[1]):
-                d = first_diff(sc, mt, v, a, b)
-                if d is not None and d != (mt, v):
-                    return d
+        # descend only through the FIRST member the value conforms to, and only if no earlier member could have
+        # produced the difference by dispatching on the value (then the difference belongs to the union itself)
+        for n, mt in enumerate(t[1]):
+            if conforms(sc, mt, v):
+                earlier = [q for q in t[1][:n] if q[0] in ("list", "dict", "tuple", "data")]
+                if not earlier and mt[0] in ("list", "dict", "tuple", "data"):
+                    d = first_diff(sc, mt, v, a, b)
+                    if d is not None and d != (mt, v):
+                        return d
+                break
         return (t, v)
     if k == "list" and v[0] in ("list", "tuple") and a[0] == "list" and b[0] == "list" and len(a[1]) == len(b[1]) == len(v[1]):
         for x, ax, bx in zip(v[1], a[1], b[1]):
@@ -319,6 +321,32 @@ def first_diff(sc, t, v, a, b):
     return (t, v)
 
 
+def conforms(sc, t, v) -> bool:
+    """isinstance-conformance of a value AST to a type AST (strict-subclass instances conform)"""
+    k = t[0]
+    if k in ("int", "str", "date"):
+        return v[0] == k
+    if k == "list":
+        return v[0] == "list" and all(conforms(sc, t[1], x) for x in v[1])
+    if k == "dict":
+        return v[0] == "dict" and all(conforms(sc, t[1], x) for _, x in v[1])
+    if k == "tuple":
+        return v[0] == "tuple" and len(v[1]) == len(t[1]) and all(conforms(sc, tt, x) for tt, x in zip(t[1], v[1]))
+    if k == "opt":
+        return v[0] == "none" or conforms(sc, t[1], v)
+    if k == "union":
+        return any(conforms(sc, m, v) for m in t[1])
+    if k == "data":
+        if v[0] != "obj":
+            return False
+        try:
+            rc = sc.cls(v[1])
+        except KeyError:
+            return False
+        return v[1] == t[1] or rc.is_strict_sub_of(t[1])
+    return False
+
+
 def wrap(r):
     return r[1] if r[0] == "ok" else ("err",) + tuple(r[1:])
 
@@ -344,6 +372,12 @@ def signature_of(sc, t, v, mixin_r, codec_r) -> dict:
             if len(dms) >= 2 and pv[1] in dms and dms.index(pv[1]) > 0:
                 sig["kind"] = "codec-union-static-dispatch"
                 return sig
+        if mixin_r[0] == "ok" and codec_r[0] == "ok" and pv[0] in ("list", "tuple", "dict") and \
+                any(m[0] in ("list", "dict", "tuple") and L.data_names(m) for m in pt[1]):
+            # a container member whose element packers dispatch dynamically (mixin) / statically (codec) meets a
+            # container value of another member
+            sig["kind"] = "union-container-member-dispatch"
+            return sig
         fieldless_before = [m for m in dms if not sc.cls(m).fields and not (pv[0] == "obj" and pv[1] == m)]
         if fieldless_before and codec_r[0] == "ok" and codec_r[1] == ("dict", []):
             sig["kind"] = "codec-union-fieldless-member"
@@ -411,8 +445,6 @@ def oracle_entry_points(ctx, sc, mod, src, cls_name, v, conforming_kind):
             if sig["kind"] == "dialect-priority":
                 ctx.hist("oracle_kind", "skipped:dialect-priority")
                 continue
-            mix, oth = (outs[ref], outs[k]) if "to_dict" in ref and outs[ref][0] == "err" else (outs[k], outs[ref])
-            sig = (trap_sig(sc, ("data", cls_name), mix, oth) if ("to_dict" in ref or "to_dict" in k) else None) or sig
             ctx.fail(f"entry points disagree on {cls_name}: {ref} = {show(outs[ref])} but {k} = {show(outs[k])}",
                      {"entry": "entry-points-pack", "source": src, "class": cls_name, "value": v, "dialect": sc.dialect,
                       "a": ref, "b": k, "observed_a": show(outs[ref]), "observed_b": show(outs[k]),
@@ -459,9 +491,7 @@ def oracle_entry_points(ctx, sc, mod, src, cls_name, v, conforming_kind):
                          {"entry": "entry-points-unpack", "source": src, "class": cls_name, "wire": d, "dialect": sc.dialect,
                           "a": names[0], "b": k, "observed_a": show(douts[names[0]]), "observed_b": show(douts[k]),
                           "expected": "identical results"},
-                         (trap_sig(sc, ("data", cls_name), *((douts[names[0]], douts[k]) if "from_dict" in names[0] and douts[names[0]][0] == "err"
-                                                              else (douts[k], douts[names[0]])))
-                          if ("from_dict" in names[0] or "from_dict" in k) else None) or {"kind": "unclassified-unpack"})
+                         {"kind": "unclassified-unpack"})
                 break
     # Optional[D] and None
     r = L.call(lambda: (BasicDecoder(Optional[D], **kw).decode(None), BasicEncoder(Optional[D], **kw).encode(None)))
@@ -751,9 +781,6 @@ def oracle_frame(ctx, sc, src, vals_by_root, steps):
                     # is a class creation that annotated that plain subclass
                     if kind == "subclass-with-field" and "to_dict" in p[0] and has_plain_strict_sub(sc, sc.roots[p[2]], v):
                         sig = {"kind": "subclass-creation-installs-method"}
-                    if "to_dict" in p[0] or "from_dict" in p[0]:
-                        # a mixin probe that failed BEFORE (first call with dialect=) and works after something compiled
-                        sig = trap_sig(sc, sc.roots[p[2]], b, a) or sig
                     ctx.fail(f"creating {kind} changed {p[0]}: before {show(b)} after {show(a)}",
                              {"entry": "frame", "source": src, "root": p[2], "value": v, "probe": p[0], "dialect": sc.dialect,
                               "creations": list(log), "observed": show(a), "expected": show(b)},
@@ -786,9 +813,6 @@ def fresh_subclass_agrees(ctx, sc, mod, cn, n, Dl, kw, vals_by_root):
             c = res_key(L.call(lambda: o.to_dict(dialect=Dl) if Dl else o.to_dict())) if sc.cls(cn).mixin else None
             d = res_key(L.call(lambda: BasicEncoder(base, **kw).encode(o)))
             ctx.count(("fresh-sub", sc.sid, cn, n), n=4)
-            if (a != b and trap_sig(sc, ("data", cn), a, b)) or (c is not None and c != d and trap_sig(sc, ("data", cn), c, d)):
-                ctx.hist("oracle_kind", "skipped:lazy-dialect-first-call(fresh subclass)")
-                return None
             if a != b:
                 # the known static-dispatch findings can sit in the inherited fields (classified at the base class)
                 sig = signature_of(sc, ("data", cn), v, a, b) if a[0] == "ok" and b[0] == "ok" else {"kind": "frame-fresh-subclass"}
@@ -799,38 +823,6 @@ def fresh_subclass_agrees(ctx, sc, mod, cn, n, Dl, kw, vals_by_root):
                 return (f"after calling the subclass: {cn}.to_dict = {show(c)} but BasicEncoder({cn}).encode = {show(d)}",
                         {"kind": "frame-fresh-subclass"})
             return None
-    return None
-
-
-def effective_lazy(c) -> bool:
-    if c.own_config:
-        return c.extra.get("lazy_compilation") == "True"
-    return effective_lazy(c.parent) if c.parent else False
-
-
-def lazy_dialect_trap(sc, t, seen=None) -> bool:
-    """t reaches a lazily compiled class with a field annotated by a PLAIN dataclass"""
-    seen = set() if seen is None else seen
-    for n in L.data_names(t):
-        if n in seen:
-            continue
-        seen.add(n)
-        c = sc.cls(n)
-        for (_, _, ft) in c.fields:
-            if effective_lazy(c) and any(not sc.cls(k).mixin for k in L.data_names(ft)):
-                return True
-            if lazy_dialect_trap(sc, ft, seen):
-                return True
-    return False
-
-
-def trap_sig(sc, t, mixin_outcome, other_outcome):
-    """known finding C15/lazy-dialect-first-call: calls carry `dialect=`, the type reaches a lazy class with a plain
-    dataclass field, and the MIXIN entry point fails (AttributeError: no __mashumaro_to_dict__/__mashumaro_from_dict__
-    on the nested class, possibly wrapped) where the other entry point does not fail the same way"""
-    if sc.dialect is not None and sc.lazy and mixin_outcome[0] == "err" and mixin_outcome != other_outcome \
-            and lazy_dialect_trap(sc, t):
-        return {"kind": "lazy-dialect-first-call"}
     return None
 
 
